@@ -31,6 +31,9 @@ def slope_points(cfg, layer_h):
     for w in range(cfg["n_wfs"]):
         d, H, lam = cfg["subap_diameters"][w], cfg["gs_altitudes"][w], cfg["wfs_wavelengths"][w]
         s = 1.0 if H == 0 else 1.0 - layer_h / H
+        above = s <= 0            # a beacon does not sense turbulence at or above its own altitude: no contribution
+        if above:
+            s = 1.0
         p = subap_centres(cfg["pupil_masks"][w], d, cfg["telescope_diameter"])
         c = s * p + np.asarray(cfg["gs_positions"][w], dtype=np.float64) * ARCSEC * layer_h
         dl = s * d
@@ -39,7 +42,7 @@ def slope_points(cfg, layer_h):
             e[axis] = 0.5 * dl
             plus.append(c + e)
             minus.append(c - e)
-            gain.append(np.full(len(c), lam / (2 * math.pi * dl)))
+            gain.append(np.full(len(c), 0.0 if above else lam / (2 * math.pi * dl)))
             meta += [(w, axis, dl)] * len(c)
     return np.concatenate(plus), np.concatenate(minus), np.concatenate(gain), meta
 
